@@ -7,6 +7,6 @@ pub mod scen_build;
 pub mod scen_hook;
 pub mod scen_render;
 pub mod scen_file;
-#[cfg(feature = "hooks")]
+#[cfg(any(feature = "hooks", feature = "wasmonly"))]
 pub mod scen_wasm;
 pub mod scen_hist;
